@@ -115,6 +115,7 @@ class Kernel:
         self.max_events = 2000000
         self.nevents = 0
         self.stalled = None
+        self.send_faults = []             # injected sendto failures: {"proc", "dst_port" | None, "errno", "count"}
         self.keep_snaps = False           # keep the server's users[] snapshot in every wait event
 
     # ------------------------------------------------------------------ log
@@ -330,6 +331,18 @@ class Kernel:
                     self._reply(p, struct.pack("<i", -97 if s else -9))
                     continue
                 dst = (ip_unpack(fam, raw), port)
+                fault = None
+                for f in self.send_faults:
+                    if f["proc"] == p.name and f["count"] > 0 and f.get("dst_port") in (None, port):
+                        fault = f
+                        break
+                if fault is not None:
+                    # injected failure of the system call (ENOBUFS, EPERM from a firewall rule, ...): nothing leaves
+                    fault["count"] -= 1
+                    self.emit("send_error", p.name, fd=fd, family=fam, errno=fault["errno"], n=len(data), data=data, cause=p.cause,
+                              injected=True, dst=dst)
+                    self._reply(p, struct.pack("<i", -fault["errno"]))
+                    continue
                 if s.port is None:
                     s.port = p.next_port
                     p.next_port += 1
